@@ -103,7 +103,7 @@ let find_alias (v : Abs.volume) (s : Tree.tstate) (d : coq_N) (name : coq_N list
 let pattern (n : int) (seed : int) : coq_N list =
   Stdlib.List.init n (fun i -> n_of_int ((seed + i * 7 + i / 251) mod 256))
 
-let run_script (si : int) (ops : opblock list) (do_wf : bool) (do_tree : bool) (do_info : bool) (do_regions : bool) (sparse_info : bool) (do_crash : bool) (crash_stride : int) : unit =
+let run_script (si : int) (ops : opblock list) (do_wf : bool) (do_tree : bool) (do_info : bool) (do_regions : bool) (sparse_info : bool) (do_crash : bool) (crash_stride : int) (sparse_wf : bool) : unit =
   Printf.printf "S %d\n" si;
   let im = ref (Image.img_empty N0) in
   let ts = ref Tree.ts_init in
@@ -323,7 +323,7 @@ let run_script (si : int) (ops : opblock list) (do_wf : bool) (do_tree : bool) (
             if not (Tree.tree_matches_abs !ts (Lazy.force v)) then Printf.printf "M %d\n" oi
         end;
         (* 3. structural invariants on the raw image *)
-        if do_wf && !formatted && not !stop then begin
+        if do_wf && !formatted && not !stop && (not sparse_wf || (match b.toks with ("stats" | "unmount" | "dropfs" | "label_root") :: _ -> true | _ -> false)) then begin
           match Wf.wf_issues fold_units !im with
           | [] -> ()
           | l -> Printf.printf "W %d %s\n" oi (String.concat " " (Stdlib.List.map issue_name l))
@@ -349,4 +349,4 @@ let main (flags : string list) : unit =
   let has f = Stdlib.List.mem f flags in
   (match Sys.getenv_opt "FATFS_UPPER_TABLE" with Some p -> load_upper p | None -> ());
   let scripts = read_transcript () in
-  Stdlib.List.iteri (fun si ops -> run_script si ops (has "wf") (has "tree") (has "info" || has "infos") (has "regions") (has "infos") (has "crash" || has "crash4") (if has "crash4" then 4 else 1)) scripts
+  Stdlib.List.iteri (fun si ops -> run_script si ops (has "wf" || has "wfs") (has "tree") (has "info" || has "infos") (has "regions") (has "infos") (has "crash" || has "crash4") (if has "crash4" then 4 else 1) (has "wfs")) scripts
